@@ -4,6 +4,7 @@ import JunoModel.C06.ProofsStatus
 import JunoModel.C06.ProofsClasses
 import JunoModel.C06.ProofsRound
 import JunoModel.C06.ProofsStale
+import JunoModel.C06.ProofsFeedConc
 /-!
 C06 — property theorems (obligations). Lemmas, statements for arbitrary code variants and facts
 that merely restate the model are in `Proofs*.lean`; here every theorem is either about the code
@@ -979,5 +980,139 @@ example :
     obtain ⟨es, hes⟩ := rounds 5
       ((Impl.init [⟨1, 2, 1, true, 0, 0⟩, ⟨0, 1, 0, true, 0, 0⟩]).step Cfg.asFound (.deliver 7 ⟨0, 1, 0, false, 0, 0⟩ true)).1 rfl
     exact ⟨_, FairRun.noop _ (.deliver 7 ⟨0, 1, 0, false, 0, 0⟩ true) es 5 rfl (Or.inl rfl) hes⟩
+
+/-! ## round 5: `feed.Feed` under CONCURRENT Subscribe / Unsubscribe / Send / receive (`ModelFeedConc.lean`)
+
+`storeTask` calls `reorgFeed.Send` / `newHeads.Send` right after `blockchain.Store` while RPC
+connection handlers subscribe and unsubscribe from their own goroutines. The machine `FeedConc.cstep`
+interleaves goroutines at the granularity of `f.mu.Lock()/Unlock()` and of single channel
+operations; `crun var s sched` runs the schedule `sched` (ANY list of goroutine numbers).
+`Variant.underLock` is feed.go as it is; `Variant.snapshotThenSend` copies `f.subs` under the lock
+and sends after `Unlock`. A start state `FeedConc.start chans pcs` has any channels (open ones are
+registered) and any number of goroutines, each about to call one operation. -/
+
+/-- SEND NEVER PANICS. For every start state and EVERY schedule of the code as it is: no goroutine
+ever sends on a closed channel (`Send` racing `Unsubscribe`) or closes a channel twice (`Unsubscribe`
+racing `Unsubscribe` of the same subscription). A panic in `Send` would unwind `storeTask` between
+`blockchain.Store` and the notifications: the block stored, its new-head / reorg notification never
+emitted. -/
+theorem feed_send_under_lock_never_panics (chans : List FeedConc.Chan) (pcs : List FeedConc.Pc)
+    (h : ∀ p ∈ pcs, p.initial = true) (sched : List Nat) :
+    (FeedConc.crun .underLock (FeedConc.start chans pcs) sched).panicked = false :=
+  FeedConc.crun_panicked (FeedConc.CInv.start chans pcs h) sched
+
+/-- Mutual exclusion as the model has it: in every reachable state at most one goroutine is inside a
+critical section of `f.mu`. -/
+theorem feed_mutex (chans : List FeedConc.Chan) (pcs : List FeedConc.Pc)
+    (h : ∀ p ∈ pcs, p.initial = true) (sched : List Nat) (t t' : Nat) :
+    let s := FeedConc.crun .underLock (FeedConc.start chans pcs) sched
+    FeedConc.holds .underLock (s.pc t) = true → FeedConc.holds .underLock (s.pc t') = true → t = t' := by
+  intro s h1 h2
+  have hi := (FeedConc.CInv.start chans pcs h).run sched
+  have a := hi.mutex t h1
+  have b := hi.mutex t' h2
+  rw [a] at b
+  exact Option.some.inj b
+
+/-- THE BLOCKING SEND OF THE KEEP-LAST PATH NEVER BLOCKS ("This is guaranteed to succeed, so select
+is not required", feed.go): in every reachable state, with any number of concurrent senders and of
+readers emptying slots, a goroutine at `sub.c <- v` finds the slot empty. (A `Send` that blocked
+would stop `storeTask`, i.e. the whole pipeline.) -/
+theorem feed_keep_last_send_never_blocks (chans : List FeedConc.Chan) (pcs : List FeedConc.Pc)
+    (h : ∀ p ∈ pcs, p.initial = true) (sched : List Nat) (t : Nat) :
+    FeedConc.blocked (FeedConc.crun .underLock (FeedConc.start chans pcs) sched) t = false :=
+  FeedConc.not_blocked ((FeedConc.CInv.start chans pcs h).run sched) t
+
+/-- SEND IS ATOMIC WITH RESPECT TO SUBSCRIBE AND UNSUBSCRIBE. For every schedule: the caller's view
+(who is registered, which channels are closed, which delivery attempts were made — with the critical
+section in progress, if any, carried to its end) equals the result of executing the operations ONE
+AT A TIME in the order in which they acquired the mutex (`hist`). In particular a state in which
+nobody holds the mutex looks exactly like a sequential history. Readers are not part of this: they
+take values out of the slots concurrently with a `Send` by design. -/
+theorem feed_send_atomic_wrt_subscribe_unsubscribe (chans : List FeedConc.Chan) (pcs : List FeedConc.Pc)
+    (h : ∀ p ∈ pcs, p.initial = true) (sched : List Nat) :
+    let s := FeedConc.crun .underLock (FeedConc.start chans pcs) sched
+    s.abs = s.hist.foldl FeedConc.astep (FeedConc.start chans pcs).view ∧
+    (s.lock = none → s.view = s.hist.foldl FeedConc.astep (FeedConc.start chans pcs).view) := by
+  intro s
+  obtain ⟨ops, e1, e2⟩ := FeedConc.crun_refines (FeedConc.CInv.start chans pcs h) sched
+  have e0 : (FeedConc.start chans pcs).hist = [] := rfl
+  have e1' : s.hist = ops := by rw [e0, List.nil_append] at e1; exact e1
+  have e2' : s.abs = ops.foldl FeedConc.astep (FeedConc.start chans pcs).view := e2
+  refine ⟨by rw [e1']; exact e2', ?_⟩
+  intro hl
+  rw [e1', ← e2']
+  simp [FeedConc.St.abs, hl]
+
+/-- EVERY SUBSCRIBER THAT STAYS SUBSCRIBED IS ATTEMPTED EXACTLY ONCE PER SEND, whatever the others
+do concurrently: if subscription `k` is registered at the start and no `Unsubscribe` of `k` ever
+acquires the mutex, then in every state where the mutex is free `k` is still registered and the
+number of delivery attempts `(v, k)` equals the number of `Send(v)` calls that have acquired the
+mutex. -/
+theorem feed_stayer_attempted_once_per_send (chans : List FeedConc.Chan) (pcs : List FeedConc.Pc)
+    (h : ∀ p ∈ pcs, p.initial = true) (sched : List Nat) (k : Nat) (v : Nat)
+    (hk : k ∈ (FeedConc.start chans pcs).subs) :
+    let s := FeedConc.crun .underLock (FeedConc.start chans pcs) sched
+    s.lock = none → FeedConc.AOp.unsub k ∉ s.hist →
+      k ∈ s.subs ∧ s.log.count (v, k) = s.hist.count (.send v) := by
+  intro s hl hno
+  have hv := (feed_send_atomic_wrt_subscribe_unsubscribe chans pcs h sched).2 hl
+  have := FeedConc.stayer_attempted_once (FeedConc.VInv.start chans pcs) s.hist k hk hno v
+  rw [← hv] at this
+  obtain ⟨a, b⟩ := this
+  refine ⟨a, ?_⟩
+  show s.view.log.count (v, k) = _
+  rw [b]
+  show ([] : List (Nat × Nat)).count (v, k) + _ = _
+  simp
+
+/-- NOTHING IS SENT TO A SUBSCRIBER AFTER ITS UNSUBSCRIBE: in the sequential history every run is
+equivalent to (previous theorem), once `k` is not registered any more no operation — `Send`, or a
+`Subscribe` of anybody else — makes a delivery attempt to `k`. -/
+theorem feed_no_attempt_after_unsubscribe (w : FeedConc.View) (hw : FeedConc.VInv w) (k : Nat)
+    (hk : k < w.closed.length) (ops : List FeedConc.AOp) :
+    FeedConc.attemptsTo k (ops.foldl FeedConc.astep (FeedConc.astep w (.unsub k))).log =
+      FeedConc.attemptsTo k w.log := by
+  have := FeedConc.no_attempt_after_unsubscribe (hw.astep (.unsub k)) ops k
+    (by simp [FeedConc.astep]) (by simpa [FeedConc.astep] using hk)
+  rw [this]; rfl
+
+-- non-vacuity: a start state with goroutines of every kind satisfies the hypothesis of the four
+-- theorems above, and a schedule that lets all of them finish: the subscriber that stays (1, keep-last,
+-- slot full) ends with the sent value, the one that leaves is closed, nobody holds the mutex, the
+-- history is [send 5, unsub 0, sub], subscriber 1 was attempted once
+example :
+    let chans : List FeedConc.Chan := [⟨false, none, false⟩, ⟨true, some 9, false⟩]
+    let pcs : List FeedConc.Pc := [.snd0 5, .un0 0, .sub0 false, .rcv 1, .un0 0]
+    (∀ p ∈ pcs, p.initial = true) ∧ 1 ∈ (FeedConc.start chans pcs).subs ∧
+    let s := FeedConc.crun .underLock (FeedConc.start chans pcs)
+      [1, 0, 0, 1, 4, 0, 0, 3, 0, 0, 0, 0, 1, 1, 1, 1, 2, 2, 2, 2]
+    s.lock = none ∧ s.hist = [.send 5, .unsub 0, .sub] ∧ s.log = [(5, 0), (5, 1)] ∧
+    s.chans = [⟨false, some 5, true⟩, ⟨true, some 5, false⟩, ⟨false, none, false⟩] ∧
+    s.subs = [1, 2] ∧ s.pcs = [.idle, .idle, .idle, .rcvD 1 (.val 9), .idle] ∧ s.panicked = false := by
+  decide
+
+example : FeedConc.VInv ⟨[0, 1], [false, false], []⟩ ∧ (1 : Nat) < [false, false].length :=
+  ⟨⟨by decide, by decide⟩, by decide⟩
+
+/-- REGRESSION WITNESS for the class "fan out on a snapshot of the subscriber set taken under the
+lock but used after releasing it" (seeded from outside; not expressible in the sequential feed
+model): one subscriber, one `Send` and one `Unsubscribe`; the `Unsubscribe` lands between the
+snapshot and the channel send — send on a closed channel. The same schedule is harmless for the
+code as it is (the `Unsubscribe` waits for the mutex), and by `feed_send_under_lock_never_panics` so
+is every other schedule. -/
+theorem feed_snapshot_then_send_sends_on_closed_channel :
+    let s0 := FeedConc.start [⟨false, none, false⟩] [.snd0 1, .un0 0]
+    (FeedConc.crun .snapshotThenSend s0 [0, 0, 1, 1, 1, 0]).panicked = true ∧
+    (FeedConc.crun .underLock s0 [0, 0, 1, 1, 1, 0]).panicked = false := by
+  decide
+
+/-- Second witness for the same class: two concurrent `Send`s and a keep-last subscriber with a full
+slot. Without the mutex around the fan-out the second sender fills the slot between the first
+sender's drain and its blocking send: the first `Send` blocks for good (nobody reads). -/
+theorem feed_snapshot_then_send_blocks_a_sender :
+    let s0 := FeedConc.start [⟨true, some 9, false⟩] [.snd0 1, .snd0 2]
+    FeedConc.blocked (FeedConc.crun .snapshotThenSend s0 [0, 0, 1, 1, 0, 0, 1, 1, 1]) 0 = true := by
+  decide
 
 end Juno.C06.Props
